@@ -27,8 +27,7 @@ def def_src(spec, n):
     # CPython 3.12 compiles `b.f(x)` differently when `b` is bound by an import statement of the same compilation
     # unit (no method-call form), and the code hash covers co_code: the snippet repeats the module's import line
     # so that a re-executed definition is compiled exactly as it is inside its module
-    other = "b" if n["module"] == "a" else "a"
-    return "from . import %s\n" % other + "\n".join(vprog.def_lines(spec, n)[0]) + "\n"
+    return "\n".join(vprog.import_lines(spec, n["module"]) + vprog.def_lines(spec, n)[0]) + "\n"
 
 
 def alias_events(spec, target):
@@ -42,7 +41,8 @@ def alias_events(spec, target):
 
 
 def gen_history(rng, n_events):
-    spec = vprog.gen_spec(rng, n_m=rng.randint(2, 4), n_p=rng.randint(1, 3), n_v=rng.randint(2, 3), n_u=rng.randint(1, 2), p_hidden=0.0, p_explicit=0.15)
+    spec = vprog.gen_spec(rng, n_m=rng.randint(2, 4), n_p=rng.randint(1, 3), n_v=rng.randint(2, 3), n_u=rng.randint(1, 2), p_hidden=0.0, p_explicit=0.15,
+                          pkg2=rng.random() < 0.3)
     # make aliases likelier
     fns = [n for n in spec["nodes"] if n["kind"] in "mp"]
     for n in fns:
@@ -101,16 +101,17 @@ def gen_history(rng, n_events):
                     u.update({"kind": "v", "vkind": "int", "value": rng.randint(1, 9)})
                     evs = [{"op": "setattr", "mod": u["module"], "name": u["name"], "value": u["value"]}]
                     d = "define the previously undefined name %s" % u["name"]
-            elif kind == "m-to-p" and len(ms) > 1:
-                n = rng.choice(ms)
+            elif kind == "m-to-p" and len([x for x in ms if x["module"] != "c"]) > 1:
+                # (functions of the second package keep their kind: a plain function there is a helper of that package only)
+                n = rng.choice([x for x in ms if x["module"] != "c"])
                 n["kind"] = "p"
                 n["explicit"] = None
                 evs = [{"op": "exec", "mod": n["module"], "src": def_src(spec, n)}] + alias_events(spec, n["name"])
                 d = "replace memento function %s by a plain function" % n["name"]
                 for k in [k for k, b in extras.items() if b == n["name"]]:
                     del extras[k]
-            elif kind == "p-to-m" and ps:
-                n = rng.choice(ps)
+            elif kind == "p-to-m" and [x for x in ps if x["module"] != "c"]:
+                n = rng.choice([x for x in ps if x["module"] != "c"])
                 n["kind"] = "m"
                 evs = [{"op": "exec", "mod": n["module"], "src": def_src(spec, n)}] + alias_events(spec, n["name"])
                 d = "replace plain function %s by a memento function" % n["name"]
@@ -175,6 +176,35 @@ def gen_history(rng, n_events):
     return spec0, events, specs, descs
 
 
+def builtin_history():
+    """a function that mentions a name which is a builtin until the module defines it, first as a variable, then as a plain function"""
+    def fn(name, kind, module, const, refs=()):
+        return {"name": name, "kind": kind, "module": module, "const": const, "default": None, "kwdefault": None, "setconst": None, "tupconst": None,
+                "sset": None, "pair": None, "nested": None, "explicit": None, "hidden": None, "shadow": None, "refs": [list(r) for r in refs]}
+    spec = {"pkg": "vpk", "nodes": [{"name": "round", "kind": "u", "module": "a"}, {"name": "divmod", "kind": "u", "module": "a"},
+                                    {"name": "G0", "kind": "v", "module": "a", "vkind": "int", "value": 1},
+                                    fn("h0", "p", "a", 3, [("divmod", "dead")]),
+                                    fn("m0", "m", "a", 10, [("round", "dead"), ("G0", "bare")]),
+                                    fn("m1", "m", "a", 20, [("h0", "bare")]),
+                                    fn("m2", "m", "b", 30, [])]}
+    spec0 = copy.deepcopy(spec)
+    events, specs, descs = [], [], []
+
+    def step(evs, d, q):
+        events.extend(evs)
+        events.append({"op": "query", "names": q})
+        specs.append((copy.deepcopy(spec), {}, q))
+        descs.append(d)
+    step([], "rebind variable G0 (no change, first query)", ["m0", "m1"])
+    vprog.node(spec, "round").update({"kind": "v", "vkind": "int", "value": 7})
+    step([{"op": "setattr", "mod": "a", "name": "round", "value": 7}], "define the previously undefined name round (a builtin name) as a variable", ["m0", "m1"])
+    h = fn("divmod", "p", "a", 9, [])
+    i = [k for k, n in enumerate(spec["nodes"]) if n["name"] == "divmod"][0]
+    spec["nodes"][i] = h
+    step([{"op": "exec", "mod": "a", "src": def_src(spec, h)}], "define the previously undefined name divmod (a builtin name) as a plain function", ["m1", "m0"])
+    return spec0, events, specs, descs
+
+
 def run(tier, seed):
     rep = C.Report("C13", tier, seed)
     gate = C.proof_gate("C13")
@@ -186,8 +216,8 @@ def run(tier, seed):
     terms, metas = [], []
     with C.Scratch("c13") as scratch:
         jobs = []
-        for hi in range(n_hist):
-            spec0, events, specs, descs = gen_history(rng, rng.randint(4, 8) if tier == "quick" else rng.randint(4, 12))
+        for hi in range(n_hist + 1):
+            spec0, events, specs, descs = builtin_history() if hi == n_hist else gen_history(rng, rng.randint(4, 8) if tier == "quick" else rng.randint(4, 12))
             jobs.append((hi, spec0, events, specs, descs, str(rng.randint(0, 99999))))
 
         def work(job):
